@@ -78,6 +78,13 @@ PROBES = [
 ]
 
 
+FIXED_SOURCES = [
+    ("fixed1.mac", "lab: .ascii \"ПРИВЕТ, мир\"\n.asciz \"plain text\"\n.even\nend: .word lab, end, 'Я\nmake_wav \"fixed1.wav\"\n"),
+    ("fixed2.mac", ".asciz \"Ж\"\n.even\n.word 'ю, \"ab\nx = 'Щ\n.word x\n.rad50 /ABC/\nmake_raw\n"),
+    ("fixed3.mac", ".ascii \"abc\"<12>\"déjà\"\n.even\nmov #'é, r0\nmake_wav \"fixed3.wav\", \"ИМЯ\"\n"),
+]
+
+
 def small_profile(rng):
     return {"n_stmts": (1, 10), "n_consts": (0, 5), "n_labels": (0, 3), "include": 0.3, "insert": 0.3,
             "multi": 0.3, "chain": 0.1, "probe": 0.3}
@@ -155,7 +162,8 @@ def make_history(rng, tier="quick"):
     else:
         n = rng.randint(16, 47)
     # swarm: per-history class weights
-    classes = ["valid", "warning", "error", "critical", "crash", "io", "handler", "epipe", "recursion", "lib-error", "cli-misc"]
+    classes = ["valid", "warning", "error", "critical", "crash", "io", "handler", "epipe", "recursion", "lib-error", "cli-misc",
+               "same-source-other-config"]
     weights = [rng.choice([0, 1, 1, 2, 4]) for _ in classes]
     if sum(weights) == 0:
         weights[0] = 1
@@ -171,6 +179,17 @@ def make_history(rng, tier="quick"):
             op = text_op(rng, "nop\n" + text + "\nhalt\n")
         elif cls == "crash":
             op = text_op(rng, rng.choice(CRASH_CANDIDATES))
+        elif cls == "same-source-other-config":
+            # one FIXED source assembled under varying configuration (charset, outputs): whatever is
+            # cached or remembered per source text / per string must not leak between configurations
+            name, text = rng.choice(FIXED_SOURCES)
+            cs = rng.choice(["bk", "koi8-r", "cp866", "utf-8", "cp1251", "utf-16", "latin-1"])
+            if rng.random() < 0.5:
+                op = text_op(rng, text, "lib", name)
+                op["charset"] = cs
+            else:
+                op = text_op(rng, text, "cli", name)
+                op["argv"] = list(op["argv"]) + ["--charset", cs] + (["-Wall"] if rng.random() < 0.3 else [])
         elif cls == "cli-misc":
             # runs that end inside argument handling: --version, an unknown option, an unsupported charset,
             # a missing input file
